@@ -44,7 +44,8 @@ def c01_variants(tier, seed):
     # sanitised twins of two configurations (ASan; clang adds the UBSan verdict subset)
     vs = list(vs)
     vs.append(Variant("w64cc_clangO1_asan", "clang", ["-DBN_DIGIT_BIT_CNT=64", "-DBN_CC_MULL_DIV", "-DBN_BIT_LEN=2048", "-O1"], san="asan_only", seed_off=900))
-    vs.append(Variant("w8pt_gccO1_asan", "gcc", ["-DBN_DIGIT_BIT_CNT=8", "-DBN_BIT_LEN=1408", "-O1"], san="asan_only", seed_off=901))
+    vs.append(Variant("w8pt_gccO1_asan", "gcc", ["-DBN_DIGIT_BIT_CNT=8", "-DBN_BIT_LEN=1408", "-O1"], san="asan_only", seed_off=901,
+                      scale=(0.3 if tier == "quick" else 1.0)))  # 8-bit digits under gcc ASan are ~15x slower than the rest: a third of the quick budget
     return vs
 
 
